@@ -419,6 +419,9 @@ func c17One(u *U, d *c17Decoder, b []byte, ty cty.Type, tyName string, origin st
 }
 
 func runC17(c *Ctx) {
+	// history clause first, so that each worker process meets it in its initial state
+	histFamily(c, "msgpack decoder calls", func() []histOp { return decodeHistoryOps("msgpack") })
+	histFamily(c, "json decoder calls", func() []histOp { return decodeHistoryOps("json") })
 	dynT := c17TargetTypes(nil)
 	for di := range c17Decoders {
 		d := &c17Decoders[di]
